@@ -27,10 +27,13 @@ ISAP_WRAP(ascon128) ISAP_WRAP(ascon128a) ISAP_WRAP(ascon80pq)
     static void P##_m_enc(unsigned char *c, size_t *clen, const unsigned char *m, size_t mlen,             \
                           const unsigned char *ad, size_t adlen, const unsigned char *n, const unsigned char *k) { \
         ascon_masked_key_##KT##_t mk; ascon_masked_key_##KT##_init(&mk, k);                              \
+        /* a masked key may be refreshed any number of times before it is used: 0, 1 or 2 by key parity */ \
+        for (int r = 0; r < (k[0] % 3); ++r) ascon_masked_key_##KT##_randomize(&mk);                     \
         P##_masked_aead_encrypt(c, clen, m, mlen, ad, adlen, n, &mk); ascon_masked_key_##KT##_free(&mk); } \
     static int P##_m_dec(unsigned char *m, size_t *mlen, const unsigned char *c, size_t clen,              \
                          const unsigned char *ad, size_t adlen, const unsigned char *n, const unsigned char *k) { \
         ascon_masked_key_##KT##_t mk; ascon_masked_key_##KT##_init(&mk, k);                              \
+        for (int j = 0; j < (k[1] % 3); ++j) ascon_masked_key_##KT##_randomize(&mk);                     \
         int r = P##_masked_aead_decrypt(m, mlen, c, clen, ad, adlen, n, &mk); ascon_masked_key_##KT##_free(&mk); return r; }
 MASK_WRAP(ascon128, 128) MASK_WRAP(ascon128a, 128) MASK_WRAP(ascon80pq, 160)
 
@@ -147,6 +150,7 @@ static std::string run_enc(const Scheme &sc, const std::string &fam, const Args 
     } else if (fam == "cppm") {
         if (sc.cppkind > 2) fatal("no masked C++ class for %s", sc.name);
         ascon::aead *c = make_cpp(sc.cppkind + 9, kb.p, k.size());
+        for (int r = 0; r < (k[0] % 3); ++r) static_cast<ascon::aead_masked *>(c)->randomize_key();
         c->set_nonce(nb.p, n.size());
         clen = c->encrypt(out.p, mp, m.size(), adb.p, adb.n);
         delete c;
@@ -216,6 +220,7 @@ static DecRes run_dec(const Scheme &sc, const std::string &fam, const Args &a,
         }
     } else if (fam == "cpp" || fam == "cppm") {
         ascon::aead *c = make_cpp(sc.cppkind + (fam == "cppm" ? 9 : 0), kb.p, k.size());
+        if (fam == "cppm") for (int j = 0; j < (k[1] % 3); ++j) static_cast<ascon::aead_masked *>(c)->randomize_key();
         c->set_nonce(nb.p, n.size());
         if (ct.size() >= 16) { r.ret = c->decrypt(out.p, cp, ct.size(), adb.p, adb.n); r.mlen = r.ret >= 0 ? r.ret : (long long)mcap; if (r.ret > 0) r.ret = 0; }
         else { r.ret = c->decrypt(out.p, cp, ct.size(), adb.p, adb.n); r.mlen = -1; }
